@@ -342,6 +342,9 @@ impl Polynomial<Cmplx> {
             } else {
                 Cmplx::polar( 1.0 + abx, iter as f64 )
             };
+            // Polishing a root at (or next to) zero: g = p'/p overflows, the step is not
+            // a number; x is already as close to the root as it can get
+            if !( dx.real.is_finite() && dx.imag.is_finite() ) { return; }
             let x1 = *x - dx;
             #[cfg(feature = "verif")]
             if *x == x1 { crate::verif::laguer( m, iter, 1 ); }
